@@ -33,6 +33,13 @@ def instances(tier: str) -> list[dict]:
                 for s in nodes:
                     for direction in ("import", "imported"):
                         out.append({"tree": tree, "naming": naming, "spec": RuleSpec("should_not", direction, False, sk, (s,), "named", (), True).as_json()})
+            # batched aliases (2-3 unrelated subjects); imports between the subjects are don't-care (two readings)
+            for ns in (2, 3):
+                for S in itertools.combinations(nodes, ns):
+                    if any(related(a, b) for a, b in itertools.combinations(S, 2)):
+                        continue
+                    for direction in ("import", "imported"):
+                        out.append({"tree": tree, "naming": naming, "spec": RuleSpec("should_not", direction, False, "named", S, "named", (), True).as_json()})
 
     if tier == "quick":
         add("T4", "neutral", 2, 2)
@@ -149,7 +156,7 @@ def run(tier: str, only: str | None = None) -> int:
         "namings": sorted({i["naming"] for i in items}),
         "max_modules": max(len(concrete(i["tree"], i["naming"])) for i in items) if items else 0,
         "path_cap_per_instance": CAPS[tier],
-        "shapes": "12 verb x direction x except shapes + import_anything / be_imported_by_anything (single subject)",
+        "shapes": "12 verb x direction x except shapes + import_anything / be_imported_by_anything (single subject, and batches of 2-3 unrelated named subjects with imports between the subjects as don't-care)",
         "filters": "named / sub modules of on either side, subjects and objects pairwise unrelated",
     }
     rep.assumptions = [
